@@ -76,6 +76,9 @@ func parseClusterNodes(data string) (map[string]*instance, error) {
 			continue
 		}
 		master := insts[inst.MasterID]
+		if master == nil {
+			return nil, errInvalidClusterNodes
+		}
 		master.Replicas = append(master.Replicas, inst)
 		delete(insts, id)
 	}
@@ -103,6 +106,9 @@ func parseClusterNodesSlot(segements []string) ([]int, error) {
 			}
 			end, err := strconv.Atoi(parts[1])
 			if err != nil {
+				return nil, errInvalidClusterNodes
+			}
+			if start < 0 || end >= slotNum {
 				return nil, errInvalidClusterNodes
 			}
 			for i := start; i <= end; i++ {
